@@ -271,9 +271,51 @@ def probation_lifecycle(r, F):
         r.fail(None, "sites", "no site setting the probation mark found")
 
 
+def enqueue_guards_exact(r, F):
+    """the converse of the guard rules: an entry that satisfies the policy / location / origin conditions DOES reach Store::enqueue. Every condition that guards
+    an enqueue in the hybrid layer is one of the prescribed kinds (policy, location, source, store enabled, throttled flag, the future / iterator plumbing);
+    any other guarding condition means some admitted entries are silently not written."""
+    ALLOWED_EQ = ("foyer_memory::raw::Source", "foyer_common::properties::Source", "foyer_common::properties::Location", "foyer::hybrid::builder::HybridCachePolicy", "foyer::hybrid::cache::HybridCachePolicy", "HybridCachePolicy", "Location", "Source")
+    n = 0
+    for f in F.all_fns("P"):
+        if f.crate.name != "foyer" or "::tests::" in f.short:
+            continue
+        for c in f.calls_to(r"Store::<K, V, S, P>::enqueue$"):
+            n += 1
+            extra = []
+            for b in f.blocks:
+                if b.cleanup or b.term.k != "switch" or b.idx == c.idx:
+                    continue
+                ts = {t for v, t in b.term.j["ts"]} | {b.term.j["else"]}
+                if not any(t is not None and f.edge_guards(b.idx, t, c.idx) and c.idx in f.reachable([t]) for t in ts):
+                    continue
+                if b.term.discr.place is None:
+                    continue
+                sl = backslice(f, b.term.discr, "prov")
+                callees = [t.callee or "" for bb, t in sl.calls]
+                tys = {f.local_ty(l) or "" for l in sl.locals}
+                ok = False
+                if any(re.search(r"cmp::PartialEq::(eq|ne)$|PartialEq<.*>>::(eq|ne)$", x) for x in callees):
+                    for bb, t in sl.calls:
+                        if t.callee and re.search(r"PartialEq", t.callee):
+                            aty = " ".join(f.local_ty(a.place.local) or "" for a in t.args if a.place is not None)
+                            ok = ok or any(k in aty for k in ALLOWED_EQ)
+                elif any(re.search(r"Future::poll$|FutureExt::poll_unpin$|Iterator::next$|Store::<K, V, S, P>::is_enabled$|Atomic::<bool>::load$|Properties::location$|HybridCacheProperties::location$|Result::<T, E>::as_ref$", x) for x in callees):
+                    ok = True
+                elif any("properties::Location" in x for x in tys):
+                    ok = True
+                if not ok:
+                    extra.append((b.term.ln, sorted(x.rsplit("::", 1)[-1] for x in callees)[:3]))
+            r.require(not extra, f, "only prescribed conditions guard the write", "guards of Store::enqueue are policy / location / source / store-enabled / throttled tests and future / iterator plumbing",
+                      "an additional condition guards Store::enqueue here %s: entries that the policy, location advice and origin admit are silently not written to the disk tier" % extra, ln=c.term.ln)
+    if n < 5:
+        r.fail(None, "sites", "only %d Store::enqueue sites in the hybrid layer (5 confirmed)" % n)
+
+
 def run(chk, F):
     chk.run_rule("C12.inmem-guard", "every Store::enqueue of the hybrid layer is control-dependent on location != InMem of the entry written", 5, inmem_guard, F)
     chk.run_rule("C12.policy-guard", "insert-time and post-fetch writes only under WriteOnInsertion; the eviction pipe only for (store, WriteOnEviction)", 5, policy_guard, F)
+    chk.run_rule("C12.enqueue-guards-exact", "no condition other than the prescribed ones guards a disk write of the hybrid layer (admitted entries do reach the disk tier)", 5, enqueue_guards_exact, F)
     chk.run_rule("C12.origin-only", "the post-fetch write is control-dependent on source() == Outer", 1, origin_only, F)
     chk.run_rule("C12.young", "BlockEngine::enqueue: Age::Young returns before sequence allocation and submit", 3, young, F)
     chk.run_rule("C12.probation-lifecycle", "the reclaim mark is per block generation: set by pickers, read into the entry's age, cleared by reset (which covers every field) on reclaim", 6, probation_lifecycle, F)
